@@ -31,6 +31,21 @@ pub fn configs(thorough: bool) -> Vec<EpCfg> {
             }
         }
     }
+    // three exchanges in flight (order of the store after an erase in the middle)
+    if !thorough {
+        for (role, ver) in [(RoleK::Client, Ver::V4), (RoleK::Server, Ver::V5)] {
+            let mut c = EpCfg::new(&cfg_name("c06", role, Some(ver), "auto=true window=3"), role, Some(ver));
+            c.auto_pub = true;
+            c.window = 3;
+            c.alph = session_alph(ver == Ver::V5, 3);
+            c.alph.pub_q = vec![1, 2];
+            c.alph.peer_ack_err = false;
+            c.connects = vec![ConnProf::basic(false)];
+            c.connacks = vec![AckProf::basic(true)];
+            c.groups = vec!["c06"];
+            v.push(c);
+        }
+    }
     // v5: aliases and a tight Maximum Packet Size on resume
     for role in [RoleK::Client, RoleK::Server] {
         let mut c = EpCfg::new(&cfg_name("c06", role, Some(Ver::V5), "alias+mps"), role, Some(Ver::V5));
